@@ -644,7 +644,7 @@ Qed.
 
 (* rotations are guarded: the target holds no identity records yet *)
 Definition rot_guard (s : state) (o : op) : Prop :=
-  match o with ORotate _ b _ => idx_of s b = [] | ORotateRR a b _ => idx_of s b = [] /\ a <> b | _ => True end.
+  match o with ORotate _ b _ => idx_of s b = [] | ORotateRR _ b _ => idx_of s b = [] | _ => True end.
 
 Lemma rotate_core_W a b ok s a0 s' : W s -> del_fix s = true -> idx_of s b = [] -> a <> b ->
   recs a0 = recs s -> idx a0 = idx s -> reqs a0 = reqs s -> last_rid a0 = last_rid s -> del_fix a0 = del_fix s ->
@@ -688,18 +688,89 @@ Lemma rotate_W a b ok s s' : W s -> del_fix s = true -> idx_of s b = [] -> rotat
 Proof.
   intros Ws Fx Gb H. unfold rotate_msg in H. destruct (mem a (rrtok s)); [discriminate|].
   destruct (negb (mem a (secrets s))); [discriminate|]. destruct (negb ok); [discriminate|].
-  destruct (mem b (rotated s)); [discriminate|]. destruct (negb (mem a (accts s))) eqn:Ma; [discriminate|].
+  destruct (mem b (rotated s)); [discriminate|]. destruct (rot_check s && has_records s b); [discriminate|].
+  destruct (negb (mem a (accts s))) eqn:Ma; [discriminate|].
   destruct (mem b (accts s)) eqn:Mb; [discriminate|].
   assert (Nab : a <> b). { intros ->. apply negb_false_iff in Ma. congruence. }
   bind_inv H. destruct (move_bal_frame _ _ _ _ Ha) as (E1 & E2 & E3 & E4 & E5).
   eapply rotate_core_W; eauto.
 Qed.
-Lemma rotate_rr_W a b ok s s' : W s -> del_fix s = true -> idx_of s b = [] -> a <> b -> rotate_rr a b ok s = Ok s' ->
+Lemma map_ren_same a (l : list request) : map (ren_req a a) l = l.
+Proof.
+  induction l as [|q t IH]; simpl; auto. rewrite IH. f_equal. unfold ren_req, ren. destruct q; simpl.
+  destruct (q_addr =? a) eqn:E1, (q_ver =? a) eqn:E2; f_equal; lia.
+Qed.
+Lemma rotate_rr_W a b ok s s' : W s -> del_fix s = true -> idx_of s b = [] -> rotate_rr a b ok s = Ok s' ->
   W s' /\ owner_frame s (ORotateRR a b ok) s' /\ vals_kept s s'.
 Proof.
-  intros Ws Fx Gb Nab H. unfold rotate_rr in H. destruct (negb (mem a (rrtok s))); [discriminate|].
+  intros Ws Fx Gb H. unfold rotate_rr in H. destruct (negb (mem a (rrtok s))); [discriminate|].
   destruct (negb ok); [discriminate|]. destruct (mem b (rotated s)); [discriminate|].
-  apply (rotate_core_W a b ok s s s'); auto.
+  destruct (rot_check s && has_records s b); [discriminate|].
+  destruct (Z.eq_dec a b) as [->|Nab].
+  - (* rotating an address without records onto itself: nothing moves *)
+    unfold rotate_core in H. rewrite Gb in H. simpl in H. inv H.
+    assert (Eq : map (fun q => mkReq (q_id q) (ren b b (q_addr q)) (ren b b (q_ver q)) (q_rids q) (q_denom q) (q_amt q) (q_date q)) (reqs s) = reqs s)
+      by (apply (map_ren_same b)).
+    split; [|split].
+    + eapply (W_ext s); simpl; auto.
+    + simpl. split.
+      * intros r Hr. exists r. split; auto. destruct (r_owner r =? b) eqn:F; auto.
+        exfalso. pose proof (W_ci _ Ws _ Hr) as Ie. assert (X : In (entry_of r) (idx_of s b)).
+        { unfold idx_of. apply filter_In. split; auto. }
+        rewrite Gb in X. destruct X.
+      * intros r' Hr. exists r'. auto.
+    + apply vals_kept_refl. reflexivity.
+  - apply (rotate_core_W a b ok s s s'); auto.
+Qed.
+
+(* ---------------------------------------------------------------- genesis round trip *)
+Definition kf (r : record) : addr * string := (r_owner r, r_key r).
+Lemma rebuild_keys l : forall acc, NoDup (map fst acc) ->
+  NoDup (map fst (fold_left (fun acc r => put_idx (r_owner r, r_key r) (r_id r) acc) l acc)).
+Proof. induction l as [|r t IH]; simpl; intros acc N; auto. apply IH. apply put_idx_keys. auto. Qed.
+Lemma rebuild_acc l : forall acc, NoDup (map kf l) -> (forall r, In r l -> ~ In (kf r) (map fst acc)) ->
+  forall e, In e (fold_left (fun acc r => put_idx (r_owner r, r_key r) (r_id r) acc) l acc) <-> In e acc \/ exists r, In r l /\ e = entry_of r.
+Proof.
+  induction l as [|r t IH]; simpl; intros acc N Hd e.
+  - split; [auto|intros [H|(r & [] & _)]; auto].
+  - inversion N as [|? ? N1 N2]; subst.
+    assert (Hput : forall e', In e' (put_idx (r_owner r, r_key r) (r_id r) acc) <-> e' = entry_of r \/ In e' acc).
+    { intros e'. rewrite In_put_idx_iff. unfold entry_of. split; [intros [H|[H _]]; auto|intros [H|H]; auto].
+      right. split; auto. intros F. apply (Hd r (or_introl eq_refl)). assert (G : In (fst e') (map fst acc)) by (apply in_map; auto). rewrite F in G. exact G. }
+    rewrite IH; auto.
+    + rewrite Hput. split.
+      * intros [[H|H]|(r' & I' & E')]; auto; [right; exists r; auto|right; exists r'; auto].
+      * intros [H|(r' & [<-|I'] & E')]; auto. right. exists r'. auto.
+    + intros r' I' Hin. apply in_map_iff in Hin. destruct Hin as (e' & Fe & Ie). apply Hput in Ie. destruct Ie as [->|Ie].
+      * apply N1. unfold entry_of in Fe. simpl in Fe. pose proof (in_map kf t r' I') as G. rewrite <- Fe in G. exact G.
+      * apply (Hd r' (or_intror I')). assert (G : In (fst e') (map fst acc)) by (apply in_map; auto). rewrite Fe in G. exact G.
+Qed.
+Lemma NoDup_map_inj_in {A B} (f : A -> B) l : (forall x y, In x l -> In y l -> f x = f y -> x = y) -> NoDup l -> NoDup (map f l).
+Proof.
+  induction l as [|x t IH]; simpl; intros Hi N; [constructor|]. inversion N; subst. constructor.
+  - intros Hin. apply in_map_iff in Hin. destruct Hin as (y & Ey & Iy). assert (y = x) by (apply Hi; auto). subst. auto.
+  - apply IH; auto.
+Qed.
+Lemma genesis_W s : W s -> W (genesis_roundtrip s).
+Proof.
+  intros Ws. pose proof (W_ni _ Ws) as Nn. pose proof (W_ri _ Ws) as Nr.
+  assert (Nk : NoDup (map kf (recs s))).
+  { apply NoDup_map_inj_in; [|eapply NoDup_map_inv; eauto]. intros x y Ix Iy E.
+    assert (X : entry_of x = entry_of y).
+    { eapply same_key_same_entry; eauto; try (apply (W_ci _ Ws); auto). }
+    eapply same_id_same_rec; eauto. unfold entry_of in X. congruence. }
+  assert (Hi : forall e, In e (rebuild_idx (recs s)) <-> exists r, In r (recs s) /\ e = entry_of r).
+  { intros e. unfold rebuild_idx. rewrite rebuild_acc; auto. split; [intros [[]|H]; auto|auto]. }
+  unfold genesis_roundtrip. constructor; simpl.
+  - apply rebuild_keys. constructor.
+  - auto.
+  - intros e Ie. apply Hi in Ie. destruct Ie as (r & Ir & ->). exists r. auto.
+  - intros r Ir. apply Hi. exists r. auto.
+  - apply (W_bi _ Ws).
+  - apply (W_lk _ Ws).
+  - intros q i Iq Ii. destruct (W_rq _ Ws q i Iq Ii) as (k & Ik). exists k. apply Hi.
+    destruct (W_ti _ Ws _ Ik) as (r & Ir & Er). exists r. auto.
+  - apply (W_lr _ Ws).
 Qed.
 
 (* ---------------------------------------------------------------- all operations *)
@@ -752,9 +823,9 @@ Proof.
       split; [apply vals_kept_no_cover; apply vals_kept_refl; auto|intros X; discriminate X].
     - destruct (rotate_W _ _ _ _ _ Ws Fx G H) as (A & B & C). split; auto. split; [exact B|].
       split; [apply vals_kept_no_cover; auto|auto].
-    - destruct G as [G1 G2]. destruct (rotate_rr_W _ _ _ _ _ Ws Fx G1 G2 H) as (A & B & C). split; auto. split; [exact B|].
+    - destruct (rotate_rr_W _ _ _ _ _ Ws Fx G H) as (A & B & C). split; auto. split; [exact B|].
       split; [apply vals_kept_no_cover; auto|auto].
-    - inv H. split; auto. split; [reflexivity|]. split; [apply vals_kept_no_cover; apply vals_kept_refl; auto|intros X; discriminate X]. }
+    - inv H. split; [apply genesis_W; auto|]. split; [reflexivity|]. split; [apply vals_kept_no_cover; apply vals_kept_refl; auto|intros X; discriminate X]. }
   destruct Core as (A & B & C & D). split; auto. split; auto.
   intros r Hr Ch. split; [apply (C r Hr Ch)|].
   intros r' Hr' Ei. destruct (approving o) eqn:Ap.
@@ -777,7 +848,7 @@ Proof.
   - rewrite (step_del_fix _ _ _ E). auto.
 Qed.
 
-Lemma W_init uk mt pc pv pn ac se b fx mg rr : W (init_state uk mt pc pv pn ac se b fx mg rr).
+Lemma W_init uk mt pc pv pn ac se b fx mg rr rc : W (init_state uk mt pc pv pn ac se b fx mg rr rc).
 Proof. constructor; simpl; try constructor; try tauto; try lia. Qed.
 
 (* only an address itself creates, changes or deletes its records; a rotation moves them unchanged *)
@@ -976,7 +1047,7 @@ Qed.
 (* ================================================================ why the rotation guard is needed *)
 (* a rotation into an address that already holds a record with the same key overwrites that address'
    index entry: its old record stays in the store but is no longer indexed *)
-Definition sg : state := init_state "moniker,username" 0 [] [] [] [0; 1; 2; 3] [0; 1; 2; 3] (fun x d => match x with User _ => 5000 | Gov => 0 end) true true [].
+Definition sg : state := init_state "moniker,username" 0 [] [] [] [0; 1; 2; 3] [0; 1; 2; 3] (fun x d => match x with User _ => 5000 | Gov => 0 end) true true [] false.
 Definition w_guard : list op := [ORegister 100 4 [("twitter", "x")]; ORegister 100 0 [("twitter", "y")]; ORotate 0 4 true]%string.
 Lemma rot_guard_needed : W sg /\ del_fix sg = true /\ ~ rot_guarded sg w_guard /\ ~ W (run sg w_guard).
 Proof.
@@ -986,4 +1057,54 @@ Proof.
     assert (E1 : recs (run sg w_guard) = [mkRec 1 4 "twitter" "x" 100 []; mkRec 2 4 "twitter" "y" 100 []]%string) by (vm_compute; reflexivity).
     assert (E2 : idx (run sg w_guard) = [((4, "twitter"), 2)]%string) by (vm_compute; reflexivity).
     rewrite E1, E2 in C. destruct C as [C|[]]; [left; reflexivity|]. unfold entry_of in C. simpl in C. inv C.
+Qed.
+
+(* ================================================================ with the rotation check the side condition disappears *)
+(* [rot_check = true]: both rotations refuse a target that already holds identity records
+   (fixes/C16-rotation-target-has-records.patch); then every successful operation satisfies
+   [rot_guard] by itself and the two frame theorems hold over ARBITRARY histories *)
+Lemma step_rot_check s o s' : step s o = Ok s' -> rot_check s' = rot_check s.
+Proof.
+  intros H. assert (P : psteps (allowed_of s o) kgT (mv_of o) s s') by (eapply step_psteps; [|exact H]; destruct o; simpl; unfold kgT; auto).
+  clear H. induction P; auto. rewrite IHP. clear IHP P. destruct H; try reflexivity.
+  - apply set_record_ok in H1. destruct H1 as (_ & _ & ->). reflexivity.
+  - apply set_record_ok in H1. destruct H1 as (_ & _ & ->). reflexivity.
+  - apply set_record_ok in H0. destruct H0 as (_ & _ & ->). reflexivity.
+  - unfold pay_opt, pay in H1. destruct (q_amt q =? 0); [inv H1; reflexivity|]. destruct (_ <? _); [discriminate|]. inv H1. reflexivity.
+  - unfold payout, pay_opt, pay in H0. destruct (q_amt q =? 0); simpl in H0; [inv H0; reflexivity|].
+    destruct (_ <? _); [discriminate|]. simpl in H0. inv H0. reflexivity.
+  - unfold pay_opt, pay in H. destruct (n =? 0); [inv H; reflexivity|]. destruct (_ <? _); [discriminate|]. inv H. reflexivity.
+Qed.
+Lemma rot_check_guard s o s' : rot_check s = true -> step s o = Ok s' -> rot_guard s o.
+Proof.
+  intros C H. destruct o; simpl; auto; simpl in H.
+  - unfold rotate_msg in H. destruct (mem a (rrtok s)); [discriminate|]. destruct (negb _); [discriminate|].
+    destruct (negb proof_ok); [discriminate|]. destruct (mem b (rotated s)); [discriminate|].
+    rewrite C in H. simpl in H. unfold has_records in H. destruct (idx_of s b); [reflexivity|discriminate].
+  - unfold rotate_rr in H. destruct (negb _); [discriminate|]. destruct (negb holder_ok); [discriminate|].
+    destruct (mem b (rotated s)); [discriminate|].
+    rewrite C in H. simpl in H. unfold has_records in H. destruct (idx_of s b); [reflexivity|discriminate].
+Qed.
+Lemma run_W_checked ops : forall s, W s -> del_fix s = true -> rot_check s = true ->
+  W (run s ops) /\ del_fix (run s ops) = true /\ rot_check (run s ops) = true.
+Proof.
+  induction ops as [|o r IH]; simpl; intros s Ws Fx C; auto. unfold step_tx.
+  destruct (step s o) as [s1| |] eqn:E; auto. apply IH.
+  - apply (step_W_frames s o s1); auto. eapply rot_check_guard; eauto.
+  - rewrite (step_del_fix _ _ _ E). auto.
+  - rewrite (step_rot_check _ _ _ E). auto.
+Qed.
+Theorem only_owner_edits_always ops s o s' :
+  W s -> del_fix s = true -> rot_check s = true ->
+  step (run s ops) o = Ok s' -> owner_frame (run s ops) o s'.
+Proof.
+  intros Ws Fx C H. destruct (run_W_checked ops s Ws Fx C) as (W1 & F1 & C1).
+  apply (step_W_frames _ _ _ W1 F1 (rot_check_guard _ _ _ C1 H) H).
+Qed.
+Theorem edit_drops_always ops s o s' :
+  W s -> del_fix s = true -> rot_check s = true ->
+  step (run s ops) o = Ok s' -> edit_drops_full (run s ops) s'.
+Proof.
+  intros Ws Fx C H. destruct (run_W_checked ops s Ws Fx C) as (W1 & F1 & C1).
+  apply (step_W_frames _ _ _ W1 F1 (rot_check_guard _ _ _ C1 H) H).
 Qed.
